@@ -83,6 +83,49 @@ mod harness {
         kani::assert(k == 2, "C10:into_iter_yields_every_tuple");
     }
 
+    /// A havoc iterator of <= 2 tuples answering ANY `size_hint` the Iterator contract allows (lower <= remaining <= upper): what a
+    /// `filter` / `flat_map` / `from_fn` source may legally say.
+    pub(crate) struct HavocIter { pub(crate) items: [(u8, u8); 2], pub(crate) n: usize, pub(crate) next: usize }
+    impl Iterator for HavocIter {
+        type Item = var_type!(u8, u8);
+        fn next(&mut self) -> Option<Self::Item> {
+            if self.next < self.n { self.next += 1; Some(var_expr!(self.items[self.next - 1].0, self.items[self.next - 1].1)) } else { None }
+        }
+        fn size_hint(&self) -> (usize, Option<usize>) {
+            let rem = self.n - self.next;
+            let lo: usize = kani::any();
+            kani::assume(lo <= rem);
+            let hi: Option<usize> = if kani::any() { None } else { let h: usize = kani::any(); kani::assume(h >= rem && h <= 4); Some(h) };
+            (lo, hi)
+        }
+    }
+    /// extend from ANY iterator == repeated insert: len, iteration and membership agree afterwards, whatever `size_hint` said,
+    /// starting from an empty or a one-tuple multiset, and a later insert still lands.
+    #[kani::proof]
+    #[kani::unwind(6)]
+    pub(crate) fn column_multiset_extend_any_size_hint() {
+        let mut m: VariadicColumnMultiset<S> = VariadicColumnMultiset::new();
+        let first: (u8, u8) = kani::any();
+        let pre: bool = kani::any();
+        if pre { m.insert(var_expr!(first.0, first.1)); }
+        let items: [(u8, u8); 2] = kani::any();
+        let n: usize = kani::any();
+        kani::assume(n <= 2);
+        m.extend(HavocIter { items, n, next: 0 });
+        let base = if pre { 1 } else { 0 };
+        kani::assert(m.len() == base + n, "C10:extend_len_counts_every_item_whatever_size_hint_said");
+        let last: (u8, u8) = kani::any();
+        m.insert(var_expr!(last.0, last.1));
+        kani::assert(m.len() == base + n + 1, "C10:len_counts_every_insert_with_multiplicity");
+        let mut k = 0;
+        for var_expr!(a, b) in m.iter() {
+            let want = if k < base { first } else if k < base + n { items[k - base] } else { last };
+            kani::assert(k < base + n + 1 && (*a, *b) == want, "C10:iter_yields_exactly_the_inserted_tuples");
+            k += 1;
+        }
+        kani::assert(k == base + n + 1, "C10:iter_yields_every_inserted_tuple");
+    }
+
     // ------------------------------------------------------------------------------------------ hashbrown-backed collections
     // A constant BuildHasher (every tuple hashes to 0) keeps hashbrown's probing concrete.  MEASURED LIMIT: one insert into an empty
     // table costs CBMC ~80 s, insert + lookup ~240 s; any SECOND insert (also of concrete tuples) exceeds 1500 s.  So only the
